@@ -37,7 +37,8 @@ BUDGET = {'quick': 45, 'thorough': 600}
 QUOTA = {'quick': 45, 'thorough': 900}
 REQUIRED = {'quick': {'evaluations': 8000, 'path_queries_compared': 6000, 'bare_id_queries': 800, 'subset_selector_queries': 500,
                       'attribute_step_queries': 500, 'replication_envelope_results': 800, 'invariance_checks': 300,
-                      'corpus_messages': 8, 'sliced_queries': 3000, 'malformed_queries_interleaved': 500},
+                      'corpus_messages': 8, 'sliced_queries': 3000, 'malformed_queries_interleaved': 500,
+                      'query_result_renderings': 1500},
             'thorough': {'evaluations': 150000, 'path_queries_compared': 120000, 'bare_id_queries': 15000,
                          'subset_selector_queries': 10000, 'attribute_step_queries': 10000, 'replication_envelope_results': 15000,
                          'invariance_checks': 5000, 'corpus_messages': 100, 'sliced_queries': 60000}}
@@ -218,6 +219,30 @@ def query_message(ctx, q, m, spec, origin, npaths):
                 ctx.violate('subset-selector/%s/%s' % ('slice' if sel else 'none', mode),
                             'query %r returned subsets %r, expected %r with per-subset results of the path' % (full, got_idx, want_idx),
                             dict(spec, expr=full))
+                continue
+            # the renderings of the result (what the `query` command prints) attribute values to the same subsets
+            try:
+                from pybufrkit.renderer import FlatJsonRenderer, NestedJsonRenderer, FlatTextRenderer
+                ctx.count('query_result_renderings')
+                nj = NestedJsonRenderer().render(qr)
+                fjr = FlatJsonRenderer().render(qr)
+                ft = FlatTextRenderer().render(qr)
+                bad = None
+                if [int(k) for k in nj.keys()] != list(got_idx) or [norm(v) for v in nj.values()] != got:
+                    bad = 'nested-json'
+                elif [int(k) for k in fjr.keys()] != list(got_idx) or [norm(v) for v in fjr.values()] != [flat(g) for g in got]:
+                    bad = 'flat-json'
+                else:
+                    heads = [ln for ln in ft.splitlines() if ln.startswith('######')]
+                    if heads != ['###### subset %d of %d ######' % (i + 1, nsub) for i in got_idx]:
+                        bad = 'flat-text'
+                if bad:
+                    ctx.violate('query-result-rendering/%s/subset-attribution' % bad,
+                                'rendering (%s) of the result of %r attributes values to subsets other than %r' % (bad, full, list(got_idx)),
+                                dict(spec, expr=full))
+            except Exception as ex:
+                ctx.violate('query-result-rendering/raises:%s' % type(ex).__name__, 'rendering the result of %r raised %s' % (full, type(ex).__name__),
+                            dict(spec, expr=full), exc=ex)
     # ---- bare IDs
     attr_ids = set()
     for sub in nodes_all:
@@ -309,6 +334,11 @@ def run(ctx):
     n = 0
     shapes = [s for s in SHAPES if s[0] in ('nested-delayed', 'nested-fixed', 'zero-count', 'sequence', '204', '204-replicated',
                                             'qa-222', 'first-order-224', 'reuse-237', 'bitmap-over-replication')] + ASSOC_SHAPES[:4] + CHAIN_SHAPES[-4:]
+    shapes = shapes + [
+        ('same-id-two-depths', [103000, 31001, 1001, 101002, 1001, 12001]),
+        ('same-id-two-depths-fixed', [102002, 12001, 102002, 12001, 4024]),
+        ('same-id-three-depths', [1001, 103002, 1001, 101000, 31001, 1001, 2001]),
+    ]
     for name, ids in shapes:
         for comp in (False, True):
             n += 1
